@@ -327,10 +327,8 @@ def evaluate(case):
             continue
         if inp.get("poison") is not None:
             # the same parser first rejects another text (never closed comment, foreign character)
-            try:
-                parser.parse(["x /* never closed", "a $ b", "/*\n\n", "a\n  @"][inp["poison"] % 4], do_cleanup=False)
-            except Exception:   # noqa
-                pass
+            parse_guarded(L, parser, ["x /* never closed", "a $ b", "/*\n\n", "a\n  @"][inp["poison"] % 4], 8, budget=20000,
+                          do_cleanup=False)
             classes.add("rejected_text_parsed_before")
         ff, inf = check_token_stream(parser, text, src, as_list)
         for b, d in ff:
